@@ -4,7 +4,7 @@ use crate::mon::pools::Kind;
 use crate::rt::{run_shards, Acc, CheckMeta, Ctx};
 
 pub fn run(ctx: &Ctx) -> (CheckMeta, Acc) {
-    let n = ctx.tier.pick(10, 120);
+    let n = ctx.tier.pick(30, 1000);
     let total = run_shards(ctx, 16, |sh, acc| {
         let rp = ctx.replay.as_ref().map(|r| r.history);
         // history ids are partitioned by workload so that a replay re-runs the right one
